@@ -18,7 +18,7 @@ from typing import Any, Dict, List, Optional, Sequence, Tuple
 from vf import reader, tables
 from vf.common import CaseResult, Check, Scratch, rng_for
 from vf.interpose import Interposer
-from vf.scenario import HINT, ClientLog, FlipLog, Template
+from vf.scenario import HINT, ClientLog, FlipLog, Template, s3_weather
 from vf.sched import PCT, RandomWalk, Scheduler, SchedEnv, Scripted, adopt, explore_bounded
 
 from checks.c01 import FlipChecker, build_seed
@@ -202,6 +202,7 @@ class Exec:
 
             adopt(sched, *handles.values())
             store.after.append(flips.s3_after)
+            s3_weather(case.get("weather"), store, sched)
             store.after.append(after)
             checker = FlipChecker(blobs, tv0, clog, flips, seeds)
             sched.monitors.append(checker.on_step)
@@ -247,6 +248,13 @@ class C08(Check):
             nsh = (8 if c["hb_steps"] else 2) if k_main == 1 else 16
             for sh in range(nsh):
                 yield dict(c, mode="dfs", k=k_main, shard=sh, nshards=nsh)
+        # object-store weather on A's first pointer PUT, where the lock does not exclude the other committer
+        for w in ("503_before", "lost_response", "applied_412"):
+            for ops in pairs[:2] if tier == "quick" else pairs:
+                nsh = 2 if k_main == 1 else 8
+                for sh in range(nsh):
+                    yield {"mode": "dfs", "ops": ops, "lock": "grant_all", "clock_steps": 0, "hb_steps": 0, "weather": w,
+                           "k": k_main, "shard": sh, "nshards": nsh}
         # one committer + a thief that takes the lock over and keeps it + the clock: all <=1-preemption schedules
         for ops in (["append"], ["delsnap"], ["delete"]):
             for sh in range(4):
@@ -270,7 +278,8 @@ class C08(Check):
             yield {"mode": rng.choice(["pct", "random"]),
                    "ops": [rng.choice(["append", "delsnap", "delete"]) for _ in range(3)],
                    "lock": rng.choice(["real", "real", "grant_all"]), "clock_steps": rng.choice([1, 2]),
-                   "hb_steps": rng.choice([0, 1, 2]), "seed": seed * 100000 + i, "runs": 6 if tier == "quick" else 12}
+                   "hb_steps": rng.choice([0, 1, 2]), "seed": seed * 100000 + i, "runs": 6 if tier == "quick" else 12,
+                   "weather": rng.choice([None, None, "503_before", "lost_response", "applied_412"])}
 
     def run_case(self, case: Any, res: CaseResult, tier: str) -> None:
         ip = Interposer().install()
